@@ -113,6 +113,7 @@ Theorem C20_unresolved_identifier_points_at_itself :
     run_prim (PFindLocal (a_text n)) s = (RVal None, s) ->
     assoc (s_globals s) (a_text n) = None -> assoc (s_funcs s) (a_text n) = None ->
     existsb (String.eqb (a_text n)) builtin_names = false ->
+    existsb (String.eqb (a_text n)) unmodelled_names = false ->     (* not one of the engine functions the model leaves out *)
     eval (mkcfg false) ops (S fuel) n s =
       (RFail (FThrow (EEval ("Can not find object: " ++ a_text n) [TE KId (a_loc n)])), s).
 Proof. exact unresolved_id_points_at_itself. Qed.
